@@ -244,6 +244,10 @@ def _dataframe(ctx):
     for n in walk_no_nested(fn):
         if isinstance(n, ast.Call) and call_name(n) in ("pd.DataFrame", "DataFrame"):
             c = kwarg(n, "columns", 1)
+            if isinstance(c, ast.Name):
+                from ..pyfront import local_defs as _ld
+                ds_ = _ld(fn).get(c.id, [])
+                c = ds_[0] if len(ds_) == 1 and ds_[0] is not None else c
             cols = const(c) if c is not None else None
     # the per-atom row: the tuple with one element per column - the element of a comprehension over the atoms, or built in a loop and appended
     cands = [n for n in walk_no_nested(fn) if isinstance(n, ast.Tuple) and cols is not None and len(n.elts) == len(cols) and any(isinstance(x, ast.Attribute) for e in n.elts for x in ast.walk(e))
